@@ -251,7 +251,14 @@ def run(tier, seed):
             if q[1] in ("cycles",):
                 # the DFS starts from hash-ordered roots: both answers must be among the model's
                 # possibilities (that is the correspondence); equality is required only when unique
-                if "||" in ma.get(kw, ""):
+                if "||" in ma.get(kw, "") or "||" in ma.get(kc, ""):
+                    continue
+                # which rotation of a cycle is reported, and on which of its fixtures, follows the hash order of the
+                # DFS roots of each index instance (C16's root-order finding) - not what is cached: the same cycles
+                # (as sets of fixture names) must be reported
+                def node_sets(a):
+                    return sorted(tuple(sorted(set(x.split("@")[0].split(">")))) for x in (a or "").strip("[]").split() if ">" in x)
+                if node_sets(aw) == node_sets(ac):
                     continue
             if aw == ac:
                 continue
